@@ -135,9 +135,32 @@ Theorem C11_endpoint_is_last_move : forall pre e post st p a,
 Proof. exact endpoint_is_last_move. Qed.
 Print Assumptions C11_endpoint_is_last_move.
 
+(* Restarts (Device.Down / Device.Up: every peer stopped and started).  A restart drops sessions,
+   the outstanding initiation and staged packets but keeps the endpoint and the greatest consumed
+   timestamp; that timestamp never decreases in any history, so an initiation that was consumed
+   once — or any with the same or an older timestamp — is never accepted again, after any later
+   history including restarts, from any source: the state, and so the endpoint, stays as it is. *)
+Theorem C11_restart_keeps_endpoints : forall now st p,
+  endpoint (fst (step st (ERestart now))) p = endpoint st p.
+Proof. intros now st p. exact (endpoint_restart now st p). Qed.
+Print Assumptions C11_restart_keeps_endpoints.
+
+Theorem C11_last_timestamp_monotone : forall st e q, last_ts st q <= last_ts (fst (step st e)) q.
+Proof. exact last_timestamp_monotone. Qed.
+Print Assumptions C11_last_timestamp_monotone.
+
+Theorem C11_replayed_initiation_never_accepted : forall st now m sid x mid now2 m2 sid2,
+  init_accepts st now m = Some x ->
+  i_static m2 = i_static m -> i_ts m2 <= i_ts m ->
+  let st2 := final step (fst (step st (EInit now m sid))) mid in
+  step st2 (EInit now2 m2 sid2) = (st2, []).
+Proof. exact replayed_initiation_never_accepted. Qed.
+Print Assumptions C11_replayed_initiation_never_accepted.
+
 (* Non-vacuity: peer 2 configured at (1,5555).  A fresh initiation from (4,5555) moves it and is
    answered there; its replay from (7,1) does nothing; a batch [bad tag from (5,1); counter 0 from
-   (6,2); counter 1 from (3,9); counter 0 again from (8,8)] leaves (3,9); UAPI sets (9,9). *)
+   (6,2); counter 1 from (3,9); counter 0 again from (8,8)] leaves (3,9); UAPI sets (9,9);
+   after a restart the replay from (7,1) and a transport message under the old session still do nothing. *)
 Example C11_nonvacuous :
   let st0 := [peer0 2 (Some (1, 5555)) 1000000000000] in
   let i := {| i_src := (4, 5555); i_mac1 := true; i_static := Some 2; i_tsok := true; i_ts := 77 |} in
@@ -145,9 +168,11 @@ Example C11_nonvacuous :
   let te a c tag := {| t_src := a; t_owner := Some (2, 1); t_tag := tag; t_ctr := c |} in
   let evs := [EInit 1000000001000 i 1; EShiftHs 2 1000000000; EInit 1000000002000 j 2;
               EBatch 1000000003000 [te (5, 1) 5 false; te (6, 2) 0 true; te (3, 9) 1 true; te (8, 8) 0 true];
-              EUapi 1000000004000 2 (9, 9) 1] in
+              EUapi 1000000004000 2 (9, 9) 1;
+              ERestart 1000000005000; EShiftHs 2 1000000000; EInit 1000000006000 j 3;
+              EBatch 1000000007000 [te (8, 8) 7 true]] in
   (outs step st0 evs,
-   map (fun k => endpoint (final step st0 (firstn k evs)) 2) [0; 1; 3; 4; 5]%nat)
-  = ([[OResp (4, 5555) 2]; []; []; []; []],
-     [Some (1, 5555); Some (4, 5555); Some (4, 5555); Some (3, 9); Some (9, 9)]).
+   map (fun k => endpoint (final step st0 (firstn k evs)) 2) [0; 1; 3; 4; 5; 9]%nat)
+  = ([[OResp (4, 5555) 2]; []; []; []; []; []; []; []; []],
+     [Some (1, 5555); Some (4, 5555); Some (4, 5555); Some (3, 9); Some (9, 9); Some (9, 9)]).
 Proof. vm_compute. reflexivity. Qed.
